@@ -76,7 +76,8 @@ def strat(draw, tier):
     dtypes = []
     for i in range(n_draw_vars):
         t = draw(st.sampled_from(['MYGEN', 'mygen', 'GEN_B']))
-        user_types.setdefault(t, [draw(gen.dyadic(-1, 1)), draw(gen.dyadic(-1, 1, 16)), draw(gen.dyadic(-1, 1, 16)), 'float'])
+        user_types.setdefault(t, [draw(gen.dyadic(-1, 1)), draw(gen.dyadic(-1, 1, 16)), draw(gen.dyadic(-1, 1, 16)), 'float',
+                                  draw(st.sampled_from([0.0, 0.125, -0.0625]))])
         dtypes.append(t)
     info2 = dict(info)
     info2['real'] = list(info['real']) + placeholders * 2
@@ -109,7 +110,8 @@ def strat(draw, tier):
     return dict(table=table, id_name=id_name, sizes=sizes, roots=[root], shared=[], betas={}, overloads=draw(st.booleans()),
                 draws=[[dnames[i], dtypes[i]] for i in range(n_draw_vars)], user_types=user_types,
                 R=draw(st.integers(1, 5)) * 2, interleaved=interleave, perm_blocks=perm_blocks, within_seed=within_seed,
-                np_seed=0, edit_drop=None if n_draw_vars else edit_drop)
+                np_seed=0, edit_drop=None if n_draw_vars else edit_drop,
+                prelude=bool(n_draw_vars) and draw(st.booleans()))
 
 
 def _permuted_table(case):
@@ -138,6 +140,12 @@ def _evaluate(case, table):
         rng[t] = (make(), f'user {t}')
     if rng:
         database.set_random_number_generators(rng)
+    if case.get('prelude') and case['draws']:
+        # the same draw variables are first used per observation, before the data are declared as panel
+        import biogeme.expressions as ex
+
+        pre = ex.MonteCarlo(ex.bioMultSum([ex.bioDraws(n_, t_) for n_, t_ in case['draws']]))
+        pre.get_value_c(database=database, number_of_draws=case['R'], prepare_ids=True)
     database.panel(case['id_name'])
     res = dict(map=np.asarray(database.individualMap, dtype=float).tolist(),
                map_index=[float(i) for i in database.individualMap.index],
@@ -224,7 +232,7 @@ def judge(case) -> Outcome:
     sorted_order = id_col == sorted(id_col)
     out.nontrivial = n_ind >= 2 and len(set(sizes)) >= 2 and 1 in sizes and not sorted_order and not case['interleaved']
     out.classes += ['interleaved' if case['interleaved'] else 'contiguous', f'individuals={n_ind}',
-                    'monte_carlo' if case['draws'] else 'no_draws', 'ids_sorted' if sorted_order else 'ids_unsorted']
+                    'monte_carlo' if case['draws'] else 'no_draws', 'after_per_observation_use' if case.get('prelude') else 'fresh_database', 'ids_sorted' if sorted_order else 'ids_unsorted']
     res = isolate.call(_observe, case)
     if case['interleaved']:
         if res['ok']:
